@@ -6,7 +6,14 @@
 -/
 namespace VM
 
-abbrev Msg := String
+/-- A reported message. Go de-duplicates on the rendered text; the model keeps what the
+    text is made of: the error code, the `Name` of a field-level error (or the quoted path of a
+    composite 422 message) and a tag holding the message kind and its remaining arguments. -/
+structure Msg where
+  code : Nat := 0
+  name : String := ""
+  tag : String := ""
+  deriving DecidableEq, Repr, Inhabited
 
 /-- result.go:339-354 / 357-372: the `for _, e := range errors` loop of `AddErrors` /
     `AddWarnings`: nil skipped, linear scan of what is already reported, append if new. -/
@@ -19,6 +26,9 @@ structure Res where
   errors : List Msg := []
   warnings : List Msg := []
   mc : Int := 0
+  /-- model bookkeeping, not a Go field: the Go computation this value stands for panicked
+      (sticky through every merge; all other fields are meaningless when set) -/
+  panicked : Bool := false
   deriving DecidableEq, Repr, Inhabited
 
 namespace Res
@@ -31,7 +41,8 @@ def inc (r : Res) : Res := { r with mc := r.mc + 1 }
 def mergeOne (r o : Res) : Res :=
   { errors := addMsgs r.errors (o.errors.map some)
     warnings := addMsgs r.warnings (o.warnings.map some)
-    mc := r.mc + o.mc }
+    mc := r.mc + o.mc
+    panicked := r.panicked || o.panicked }
 
 /-- result.go:116-128 Merge(others...): nil operands skipped. -/
 def merge (r : Res) : List (Option Res) → Res
@@ -43,7 +54,8 @@ def merge (r : Res) : List (Option Res) → Res
 def mergeAsErrorsOne (r o : Res) : Res :=
   { errors := addMsgs (addMsgs r.errors (o.errors.map some)) (o.warnings.map some)
     warnings := r.warnings
-    mc := r.mc + o.mc }
+    mc := r.mc + o.mc
+    panicked := r.panicked || o.panicked }
 
 def mergeAsErrors (r : Res) : List (Option Res) → Res
   | [] => r
@@ -54,7 +66,8 @@ def mergeAsErrors (r : Res) : List (Option Res) → Res
 def mergeAsWarningsOne (r o : Res) : Res :=
   { errors := r.errors
     warnings := addMsgs (addMsgs r.warnings (o.errors.map some)) (o.warnings.map some)
-    mc := r.mc + o.mc }
+    mc := r.mc + o.mc
+    panicked := r.panicked || o.panicked }
 
 def mergeAsWarnings (r : Res) : List (Option Res) → Res
   | [] => r
